@@ -239,6 +239,8 @@ contract(
     ghost={"kerning_new[first, second] = value": ["wi = {**wi, (first, second): i}"]},
     # stepping stones between the loop that builds the conjugated table and the two statements that install it
     hints={
+        "group_members_new = []": ["group_name == GK[gi] and group_members == G0[group_name]"],
+        "font.groups[group_name] = group_members_new": ["font.groups[GK[gi]] == group_members_new and len(group_members_new) == len(G0[GK[gi]])"],
         "font.kerning.clear()": [
             f"all({_SP.format('k')} in kerning_new and kerning_new[{_SP.format('k')}] == K0[k] for k in K0)",
             f"all(implies(k in kerning_new, {_SP.format('k')} in K0) for k in font.all_pairs)",
@@ -264,13 +266,14 @@ contract(
             index="gi", seq="GK",
             invariants={
                 "names": "list(font.groups.keys()) == GK and len(GK) == len(list(G0.keys())) and all(GK[j] == list(G0.keys())[j] for j in range(len(GK)))",
-                "done": f"all(len(font.groups[GK[j]]) == len(G0[GK[j]]) and all(font.groups[GK[j]][m] == {_SW.format('G0[GK[j]][m]')} for m in range(len(G0[GK[j]]))) for j in range(gi))",
+                "done": f"all(len(font.groups[GK[j]]) == len(G0[GK[j]]) and all(font.groups[GK[j]][m] == {_SW.format('G0[GK[j]][m]')} for m in range(len(font.groups[GK[j]]))) for j in range(gi))",
                 "todo": "all(font.groups[GK[j]] == G0[GK[j]] for j in range(gi, len(GK)))",
             },
         ),
         "for name in group_members": Loop(
             index="mi",
-            invariants={"mapped": f"len(group_members_new) == mi and all(group_members_new[m] == {_SW.format('group_members[m]')} for m in range(mi))"},
+            # (stated against the group's ORIGINAL member list G0[group_name], which `group_members` is: hint below)
+            invariants={"mapped": f"len(group_members_new) == mi and all(group_members_new[m] == {_SW.format('G0[group_name][m]')} for m in range(len(group_members_new)))"},
         ),
     },
 )
